@@ -385,7 +385,7 @@ fn run_exp_for(sh: &mut shell::Shell,
                 let (mut _cr_list, _cont, _brk) = run_exp(
                     sh, pair.clone(), args, true, capture);
                 cr_list.append(&mut _cr_list);
-                if _brk {
+                if _brk || failed_with_exit_on_error(sh, &cr_list) {
                     break;
                 }
             }
@@ -402,11 +402,23 @@ fn run_exp_while(sh: &mut shell::Shell,
     loop {
         let (mut _cr_list, passed, _cont, _brk) = run_exp_test_br(sh, pair_while.clone(), args, true, capture);
         cr_list.append(&mut _cr_list);
-        if !passed || _brk {
+        if !passed || _brk || failed_with_exit_on_error(sh, &cr_list) {
             break;
         }
     }
     cr_list
+}
+
+/// With `set -e` a failing command inside an `if` / `for` / `while` body
+/// ends that body; the enclosing blocks must stop as well.
+fn failed_with_exit_on_error(sh: &shell::Shell, cr_list: &[CommandResult]) -> bool {
+    if !sh.exit_on_error {
+        return false;
+    }
+    match cr_list.last() {
+        Some(last) => last.status != 0,
+        None => false,
+    }
 }
 
 fn run_exp(sh: &mut shell::Shell,
@@ -452,7 +464,11 @@ fn run_exp(sh: &mut shell::Shell,
             }
         } else if rule == parsers::locust::Rule::EXP_IF {
             let (mut _cr_list, _cont, _brk) = run_exp_if(sh, pair, args, in_loop, capture);
+            let failed = failed_with_exit_on_error(sh, &_cr_list);
             cr_list.append(&mut _cr_list);
+            if failed {
+                return (cr_list, false, false);
+            }
             if _cont {
                 return (cr_list, true, false);
             }
@@ -461,10 +477,18 @@ fn run_exp(sh: &mut shell::Shell,
             }
         } else if rule == parsers::locust::Rule::EXP_FOR {
             let mut _cr_list = run_exp_for(sh, pair, args, capture);
+            let failed = failed_with_exit_on_error(sh, &_cr_list);
             cr_list.append(&mut _cr_list);
+            if failed {
+                return (cr_list, false, false);
+            }
         } else if rule == parsers::locust::Rule::EXP_WHILE {
             let mut _cr_list = run_exp_while(sh, pair, args, capture);
+            let failed = failed_with_exit_on_error(sh, &_cr_list);
             cr_list.append(&mut _cr_list);
+            if failed {
+                return (cr_list, false, false);
+            }
         }
     }
     (cr_list, false, false)
